@@ -197,7 +197,12 @@ def build_device(rng, d):
         mks.append(mk)
     cols = []
     tc = TrenchColumn(x_center=2.0, y_min=-0.1, y_max=1.0, length=0.3, nboxz=1, h_box=0.02, deltaz=0.01, delta_floor=0.02)
-    tc.dig_from_array([np.array([[-1.0, 0.3 * k], [5.0, 0.3 * k]]) for k in range(1, 3)])
+    if rng.random() < 0.4:
+        # a column dug in two steps, the upper part first: its trenches are not stored bottom-to-top
+        tc.dig_from_array([np.array([[-1.0, 0.6], [5.0, 0.6]]), np.array([[-1.0, 0.9], [5.0, 0.9]])])
+        tc.dig_from_array([np.array([[-1.0, 0.3], [5.0, 0.3]]), np.array([[-1.0, 0.45], [5.0, 0.45]])])
+    else:
+        tc.dig_from_array([np.array([[-1.0, 0.3 * k], [5.0, 0.3 * k]]) for k in range(1, 3)])
     cols.append(tc)
     if rng.random() < 0.4:
         utc = UTrenchColumn(x_center=4.0, y_min=-0.1, y_max=1.0, length=0.3, nboxz=1, h_box=0.02, deltaz=0.01, delta_floor=0.02, n_pillars=1)
@@ -242,9 +247,10 @@ def run_device(ctx):
     rng = ctx.rng
     for i in range(ctx.n(25, 400)):
         with gcommon.Scratch() as d, core.quiet():
+            rstate = rng.getstate()
             dev, param, wgs, nw, mks, cols, ext = build_device(rng, d)
             paths = wgs + [nw] + mks
-            ops = [rng.choice(['plot2d', 'plot3d', 'pgm', 'pgm', 'xlsx', 'toolpath', 'writer_plot', 'points']) for _ in range(rng.randint(2, 9))]
+            ops = [rng.choice(['plot2d', 'plot3d', 'pgm', 'pgm', 'xlsx', 'toolpath', 'toolpath_partial', 'writer_plot', 'points']) for _ in range(rng.randint(2, 9))]
             if 'pgm' in ops and rng.random() < 0.7:
                 ops.append('pgm')
             case = {'ops': ops, 'param': {k: (list(v) if isinstance(v, tuple) else v) for k, v in param.items() if k != 'export_dir'}, 'ucol': len(cols) > 1}
@@ -254,6 +260,18 @@ def run_device(ctx):
             est0 = {'len': [w.length for w in wgs], 'fab': [p.fabrication_time for p in paths]}
             first = {}
             bad = None
+            twin = rng.random() < 0.5
+            ctx.count('device.reference', 'fresh-twin' if twin else 'first-export')
+            if twin:
+                # the reference is what a freshly built, never used copy of the same device exports (same PRNG state, other folder)
+                import random as _random
+                r2 = _random.Random()
+                r2.setstate(rstate)
+                (d / 'twin').mkdir()
+                dev2, _, _, _, _, cols2, _ = build_device(r2, d / 'twin')
+                dev2.pgm(verbose=verbose)
+                first['tree'] = tree(d / 'twin' / 'exp')
+                first['floor'] = [t_.floor_length for c in cols2 for t_ in c._trench_list]
             for step, op in enumerate(ops):
                 ctx.count('device.op', op)
                 try:
@@ -279,6 +297,11 @@ def run_device(ctx):
                             first.setdefault(k, v)
                     elif op == 'xlsx':
                         dev.xlsx(verbose=False, book_name=str(d / f'book{step}.xlsx'))
+                    elif op == 'toolpath_partial':
+                        # an outline preview: only the first polyline of every tool-path is looked at
+                        for c in cols:
+                            for t_ in list(c._trench_list) + list(getattr(c, 'trenchbed', [])):
+                                next(iter(t_.toolpath()), None)
                     elif op == 'toolpath':
                         for c in cols:
                             for t_ in list(c._trench_list) + list(getattr(c, 'trenchbed', [])):
